@@ -41,7 +41,7 @@ CONFIG = dict(
     profiles=["debug", "release"], profile_in_case=True,
     n_quick=1500, n_thorough=120000, shards=12,
     # non-trivial = some destination ranks at least two exportable paths
-    nontrivial_re=r"\(loc [^\n]*?\(\([vm] \d+\) \d+ \d+ \([^()]*\) \(",
+    nontrivial_re=r"\(loc [^\n]*?\(\([vm] \d+\) \d+ \([^()]*\) \([^()]*\) \(",
     rule="histories over one Table: candidate paths from colliding attribute domains (LOCAL_PREF {90,100,110,absent}, AS_PATH "
          "segment templates incl. AS_SET / confed / empty / 255+45 hops / 200+SET+56, ORIGIN 0-2/absent, five peer roles, 3 "
          "router-ids / ORIGINATOR_IDs, CLUSTER_LIST of 0/1/2, LLGR_STALE / NO_LLGR / other communities incl. a truncated one, MAC "
